@@ -21,7 +21,8 @@ PreText(e, r, fam) ==
          IF fam = "RC" THEN (IF r = 1 THEN "-RC.1" ELSE "-RC.2") ELSE (IF r = 1 THEN "-alpha.1" ELSE "-alpha.2")
     \* maven: the lower-case qualifier and the upper-case milestone alias (M1 < M2 < the release)
     [] e = "maven" -> IF fam = "M" THEN (IF r = 1 THEN "-M1" ELSE "-M2") ELSE (IF r = 1 THEN "-alpha-1" ELSE "-alpha-2")
-    [] e = "gem"   -> IF r = 1 THEN ".alpha.1" ELSE ".alpha.2"
+    \* (".alpha.1" is a RubyGems version too, but go-univers' gem parser rejects a number segment after a letter segment)
+    [] e = "gem"   -> IF r = 1 THEN ".alpha1" ELSE ".alpha2"
     [] e = "composer" -> IF r = 1 THEN "-alpha1" ELSE "-alpha2"
     [] e = "pypi"  -> IF r = 1 THEN "a1" ELSE "a2"
 Fams(e) == IF e \in {"npm", "cargo", "hex"} THEN {"alpha", "RC"} ELSE IF e = "maven" THEN {"alpha", "M"} ELSE {"alpha"}
@@ -120,9 +121,11 @@ Conan ==
 
 Gem ==
   LET e == "gem" IN
-     {Vec(e, "pess3", "~>" \o sp \o T3(b), <<Iv(b, TRUE, PessHi(b, 3, 3), FALSE)>>, FALSE, TRUE, FALSE) : b \in B3, sp \in {"", " "}}
-  \cup {Vec(e, "pess2", "~>" \o sp \o T2(b), <<Iv(b, TRUE, PessHi(b, 2, 3), FALSE)>>, FALSE, FALSE, FALSE) : b \in B2, sp \in {"", " "}}
-  \cup {Vec(e, "pess1", "~>" \o T1(b), <<Iv(b, TRUE, V(b[1] + 1, 0, 0, 3), FALSE)>>, FALSE, FALSE, FALSE) : b \in B1}
+     \* RubyGems: "~> 1.2.3" is satisfied iff v >= 1.2.3 and v.release < 1.3 - a pre-release of the upper bound is outside,
+     \* so the upper bound is the level-0 point below every pre-release of the bump (like npm's "<2.0.0-0")
+     {Vec(e, "pess3", "~>" \o sp \o T3(b), <<Iv(b, TRUE, PessHi(b, 3, 0), FALSE)>>, FALSE, TRUE, TRUE) : b \in B3, sp \in {"", " "}}
+  \cup {Vec(e, "pess2", "~>" \o sp \o T2(b), <<Iv(b, TRUE, PessHi(b, 2, 0), FALSE)>>, FALSE, FALSE, TRUE) : b \in B2, sp \in {"", " "}}
+  \cup {Vec(e, "pess1", "~>" \o T1(b), <<Iv(b, TRUE, V(b[1] + 1, 0, 0, 0), FALSE)>>, FALSE, FALSE, TRUE) : b \in B1}
 
 Hex ==
   LET e == "hex" IN
@@ -164,6 +167,10 @@ Maven == Brackets("maven")
   \cup {Vec("maven", "union", "(," \o T3(b) \o "],[" \o T3(V(b[1] + 1, b[2], 5, 3)) \o ",)",
             <<Iv(BOT, TRUE, b, TRUE), Iv(V(b[1] + 1, b[2], 5, 3), TRUE, TOP, TRUE)>>, FALSE, TRUE, FALSE) : b \in B3}
 
+\* ecosystems whose ranges are documented to admit a pre-release lying strictly inside the interval (go-univers' own
+\* documentation for npm: inclusive treatment; RubyGems, Conan with pre-releases resolved, Elixir with allow_pre, Maven
+\* and NuGet intervals by plain order); cargo's opt-in rule is not claimed
+InteriorPreEcos == {"npm", "gem", "hex", "conan", "nuget", "maven"}
 ShortEcos == {"npm", "cargo", "composer", "conan", "gem", "hex", "pypi", "nuget", "maven"}
 Table(e) == CASE e = "npm" -> Npm [] e = "cargo" -> Cargo [] e = "composer" -> Composer [] e = "conan" -> Conan
               [] e = "gem" -> Gem [] e = "hex" -> Hex [] e = "pypi" -> Pypi [] e = "nuget" -> Nuget [] e = "maven" -> Maven
@@ -191,10 +198,12 @@ ProbesOf(v) ==
                    \cup {V(b[1], b[2], b[3], 2) : b \in {b \in lows : Real(b) /\ b[4] = 2}}
               ELSE {}
       hpre == IF v.hiPre /\ 1 \in ProbeLevels(e) THEN {V(b[1], b[2], b[3], 1) : b \in {b \in his : Real(b)}} ELSE {}
+      \* a pre-release strictly inside the interval: of the patch right above the lower bound
+      ipre == IF 1 \in ProbeLevels(e) /\ e \in InteriorPreEcos THEN {V(b[1], b[2], b[3] + 1, 1) : b \in {b \in lows : Real(b)}} ELSE {}
       xep == IF e = "pypi"
              THEN {IF b[1] >= 1000 THEN V(b[1] - 1000, b[2], b[3], 3) ELSE V(b[1] + 1000, b[2], b[3], 3) : b \in {b \in bs : Real(b)}}
              ELSE {} IN
-  {p \in core \cup post \cup bpre \cup hpre \cup xep : Real(p) /\ p[4] \in ProbeLevels(e) \cup {1, 2}}
+  {p \in core \cup post \cup bpre \cup hpre \cup ipre \cup xep : Real(p) /\ p[4] \in ProbeLevels(e) \cup {1, 2}}
 
 -----------------------------------------------------------------------------
 (* generator automaton: one step picks a table row *)
